@@ -410,13 +410,38 @@ pub fn c16_joiner_goes_on(rep: &mut Report, backend: Bk) {
             let b = Client::new("B", backend, &cfg);
             let c = Client::new("C", backend, &cfg);
             let admins = if joiner_admin { vec![a.pk(), b.pk()] } else { vec![a.pk()] };
-            let cfgd = NostrGroupConfigData::new("chain".into(), "d".into(), None, None, None, vec![relay("wss://c.example")], admins);
+            let cfgd = NostrGroupConfigData::new("chain".into(), "d".into(), Some([0x71; 32]), Some([0x72; 32]), Some([0x73; 12]), vec![relay("wss://c.example")], admins);
             let Ok(created) = with_mdk!(a, m => m.create_group(&a.pk(), vec![b.key_package_event()], cfgd)) else {
                 rep.machinery_errors.push("c16 chain: create_group".into());
                 continue;
             };
             let gid = created.group.mls_group_id.clone();
             let _ = with_mdk!(a, m => m.merge_pending_commit(&gid));
+            // the stored invitation is the invitation: what process_welcome returns, what it returns when the same
+            // invitation is processed again, and what get_welcome reads back agree field by field and with the group
+            {
+                let wj = |w: &mdk_storage_traits::welcomes::types::Welcome| -> Value {
+                    json!({"id": w.id.to_hex(), "group": hx(w.mls_group_id.as_slice()), "nostr_group_id": hx(&w.nostr_group_id), "name": w.group_name, "description": w.group_description,
+                        "image_hash": w.group_image_hash.map(|h| hx(&h)), "image_key": w.group_image_key.as_ref().map(|k| hx(k.as_ref())), "image_nonce": w.group_image_nonce.as_ref().map(|k| hx(k.as_ref())),
+                        "admins": w.group_admin_pubkeys.iter().map(|p| p.to_hex()).collect::<Vec<_>>(), "relays": w.group_relays.iter().map(|r| r.to_string()).collect::<Vec<_>>(),
+                        "welcomer": w.welcomer.to_hex(), "member_count": w.member_count, "state": w.state.as_str(), "wrapper": w.wrapper_event_id.to_hex()})
+                };
+                let first = with_mdk!(b, m => m.process_welcome(&wid("w-b"), &created.welcome_rumors[0])).ok().map(|w| wj(&w));
+                let again = with_mdk!(b, m => m.process_welcome(&wid("w-b"), &created.welcome_rumors[0])).ok().map(|w| wj(&w));
+                let read = created.welcome_rumors[0].id.and_then(|id| with_mdk!(b, m => m.get_welcome(&id)).ok().flatten()).map(|w| wj(&w));
+                rep.case(&format!("stored-invitation|{backend:?}|{}|{}|{}", first.is_some(), again == first, read == first));
+                rep.evaluations += 1;
+                let want_img = json!([hx(&[0x71u8; 32]), hx(&[0x72u8; 32]), hx(&[0x73u8; 12])]);
+                if let Some(f) = &first {
+                    if json!([f["image_hash"], f["image_key"], f["image_nonce"]]) != want_img || f["name"] != "chain" {
+                        rep.finding("C16|invitation-does-not-describe-the-group".into(), "process_welcome returns an invitation whose name / image fields are not the group's".into(), json!({"backend": format!("{backend:?}"), "welcome": f}));
+                    }
+                }
+                if first.is_some() && (again != first || read != first) {
+                    let diff = |x: &Option<Value>| -> Vec<String> { match (x, &first) { (Some(a), Some(f)) => f.as_object().map(|o| o.keys().filter(|k| a[k.as_str()] != f[k.as_str()]).cloned().collect()).unwrap_or_default(), _ => vec!["missing".into()] } };
+                    rep.finding(format!("C16|same-invitation-again-returns-another-welcome|processed-again:{}|read-back:{}|{backend:?}", diff(&again).join("+"), diff(&read).join("+")), "processing the same invitation again / reading it back does not give the welcome the first call returned".into(), json!({"backend": format!("{backend:?}"), "first": first, "again": again, "read_back": read}));
+                }
+            }
             let joined = with_mdk!(b, m => m.process_welcome(&wid("w-b"), &created.welcome_rumors[0]).and_then(|w| m.accept_welcome(&w))).is_ok();
             if !joined {
                 rep.machinery_errors.push("c16 chain: B cannot join".into());
@@ -485,6 +510,35 @@ pub fn c16_joiner_goes_on(rep: &mut Report, backend: Bk) {
                 continue;
             }
             check_pending("after-self-update-merged", false, rep);
+        }
+    }
+    // the invitation travels in an unsigned rumor: tags outside the MLS Welcome (the relay list) can be rewritten on the
+    // way. Whatever they say, the joiner's relay set is the one of the group state it joined
+    for variant in ["relays-tag-rewritten", "relays-tag-removed", "relays-tag-extended"] {
+        let a = Client::new("A", Bk::Memory, &cfg);
+        let b = Client::new("B", backend, &cfg);
+        let cfgd = NostrGroupConfigData::new("tags".into(), "d".into(), None, None, None, vec![relay("wss://group.example")], vec![a.pk()]);
+        let Ok(created) = with_mdk!(a, m => m.create_group(&a.pk(), vec![b.key_package_event()], cfgd)) else { continue };
+        let gid = created.group.mls_group_id.clone();
+        let _ = with_mdk!(a, m => m.merge_pending_commit(&gid));
+        let mut rumor = created.welcome_rumors[0].clone();
+        let tags: Vec<nostr::Tag> = rumor.tags.iter().filter(|t| t.as_slice()[0] != "relays").cloned().collect();
+        let mut tags = tags;
+        match variant {
+            "relays-tag-rewritten" => tags.push(nostr::Tag::parse(["relays", "wss://elsewhere.example"]).unwrap()),
+            "relays-tag-extended" => tags.push(nostr::Tag::parse(["relays", "wss://group.example", "wss://elsewhere.example"]).unwrap()),
+            _ => {}
+        }
+        rumor.tags = tags.into_iter().collect();
+        rumor.id = None;
+        rumor.ensure_id();
+        let res = with_mdk!(b, m => m.process_welcome(&wid(variant), &rumor).and_then(|w| m.accept_welcome(&w)));
+        let relays_of = |x: &Client| -> Option<Vec<String>> { with_mdk!(x, m => m.get_relays(&gid)).ok().map(|r| r.iter().map(|u| u.to_string()).collect()) };
+        let (ra, rb) = (relays_of(&a), relays_of(&b));
+        rep.case(&format!("rumor-tags|{backend:?}|{variant}|accepted={}|same-relays={}", res.is_ok(), ra == rb));
+        rep.evaluations += 1;
+        if res.is_ok() && ra != rb {
+            rep.finding(format!("C16|joiner-relays-differ-from-the-group's|{variant}"), format!("an invitation whose rumor carries {variant} is accepted; the joiner's relays are {rb:?}, the group's {ra:?}"), json!({"backend": format!("{backend:?}"), "variant": variant}));
         }
     }
     rep.states += 1;
